@@ -32,6 +32,51 @@ func GeneralProfile() *Profile {
 func ProfileFor(id, tier string) *Profile {
 	p := GeneralProfile()
 	p.Name = id
+	bump := func(m map[string]int) {
+		for k, v := range m {
+			p.OpW[k] = v
+		}
+	}
+	switch id {
+	case "C01", "C06":
+		bump(map[string]int{"tie_reports": 25, "register_spec": 4, "create_reporter": 12, "submit_value": 40})
+		p.Witnesses = [2]int{1, 3}
+	case "C02":
+		p.BigGaps = 0.04
+		bump(map[string]int{"gov_proposal": 3, "gov_vote": 12, "propose_dispute": 8, "vote": 14})
+	case "C03":
+		bump(map[string]int{"gov_proposal": 3, "gov_vote": 12, "tip": 25, "withdraw_tokens": 6, "claim_deposits": 5})
+		p.OneTxBlocks = 0.3
+	case "C04", "C09":
+		bump(map[string]int{"tip": 25, "create_reporter": 12, "select_reporter": 10, "switch_reporter": 4, "withdraw_tip": 8, "gov_proposal": 2, "gov_vote": 10})
+	case "C05", "C10":
+		bump(map[string]int{"delegate": 10, "undelegate": 10, "redelegate": 8, "cancel_unbonding": 3, "propose_dispute": 10, "add_fee": 6, "withdraw_fee_refund": 6, "withdraw_tip": 8, "select_reporter": 10, "switch_reporter": 5, "create_validator": 2})
+		p.Faults["partition"] = 0.05
+		p.Candidates = [2]int{0, 2}
+	case "C07", "C08":
+		bump(map[string]int{"tip": 25, "submit_value": 45, "gov_proposal": 3, "gov_vote": 12, "request_attestations": 6, "propose_dispute": 6, "add_evidence": 4, "withdraw_tokens": 5})
+	case "C11", "C12", "C13":
+		bump(map[string]int{"propose_dispute": 14, "add_fee": 8, "vote": 25, "withdraw_fee_refund": 8, "claim_reward": 8, "tip": 14, "redelegate": 5, "undelegate": 5})
+		p.BigGaps = 0.06
+		p.Faults["aim_deadline"] = 0.3
+	case "C14":
+		bump(map[string]int{"deposit_report": 20, "claim_deposits": 12, "withdraw_tokens": 8, "create_reporter": 14})
+		p.BigGaps = 0.05
+	case "C16", "C17":
+		bump(map[string]int{"request_attestations": 8, "delegate": 8, "undelegate": 8, "redelegate": 5, "create_validator": 3, "unjail_validator": 5})
+		p.Faults["byz_ext"] = 0.3
+		p.Faults["tamper"] = 0.3
+		p.Faults["partition"] = 0.05
+		p.Candidates = [2]int{0, 2}
+		p.BigGaps = 0.04
+	case "C18":
+		bump(map[string]int{"delegate": 14, "undelegate": 12, "redelegate": 8, "cancel_unbonding": 4, "multi": 14, "create_validator": 3})
+		p.Faults["aim_deadline"] = 0.3
+		p.BigGaps = 0.05
+	case "C19":
+		bump(map[string]int{"wrong_signer": 10, "privileged_direct": 6, "gov_proposal": 3, "gov_vote": 10, "update_team": 4, "register_spec": 4, "remove_selector": 5})
+		p.OneTxBlocks = 0.5
+	}
 	if tier == "thorough" {
 		p.Blocks = [2]int{60, 600}
 	}
